@@ -64,6 +64,7 @@ type gen struct {
 	vals     map[ssa.Value]*Val
 	fnNamed  map[int]bool
 	hypForalls []hypForall
+	searchK    int             // > 0: bounded unrolling for counterexample search (see searchUnroll)
 	cutting    *ssa.BasicBlock // header of the loop whose invariants are being evaluated between blocks
 	curCall    *ssa.CallCommon // the call being interpreted (for argis)
 	storedVal  *Term           // the value of the store being guarded (for storedvalue)
@@ -1044,6 +1045,10 @@ func (g *gen) removeExitEdges(li *loopInfo) {
 }
 
 func (g *gen) execLoop(li *loopInfo) {
+	if g.searchK > 0 {
+		g.searchUnroll(li, g.searchK)
+		return
+	}
 	spec := g.loopSpec(li)
 	if spec == nil && li.exitsFromHeaderOnly && !li.inner {
 		if g.tryUnroll(li) {
@@ -1054,6 +1059,55 @@ func (g *gen) execLoop(li *loopInfo) {
 }
 
 const maxUnroll = 17
+
+// searchUnroll: counterexample search only (never used for a proof). The loop is
+// executed for at most K iterations and paths that need more are dropped, an
+// under-approximation: every model of an obligation generated this way is a path
+// through the real control flow from the function's entry, so its input values
+// can be replayed. (A cut loop, by contrast, starts from an arbitrary state that
+// satisfies the invariant, and its counterexamples need not be reachable.)
+func (g *gen) searchUnroll(li *loopInfo, K int) {
+	h := li.header
+	in := append([]*edge(nil), g.incoming[h]...)
+	for k := 0; k <= K; k++ {
+		st := g.mergeEdges(h, in)
+		g.execBlock(h, st, li)
+		if k == K {
+			break
+		}
+		for b := range li.blocks {
+			if b != h {
+				delete(g.done, b)
+			}
+		}
+		g.execBlocks(g.loopBody(li), li)
+		var back, keep []*edge
+		for _, e := range g.incoming[h] {
+			if e.from != nil && li.blocks[e.from] {
+				back = append(back, e)
+			} else {
+				keep = append(keep, e)
+			}
+		}
+		g.incoming[h] = keep
+		for b := range li.blocks {
+			if b != h {
+				delete(g.incoming, b)
+			}
+		}
+		if len(back) == 0 {
+			break
+		}
+		in = back
+	}
+	// drop whatever would continue inside the loop
+	for b := range li.blocks {
+		if b != h {
+			delete(g.incoming, b)
+		}
+		g.done[b] = true
+	}
+}
 
 func (g *gen) tryUnroll(li *loopInfo) bool {
 	h := li.header
